@@ -269,8 +269,16 @@ func execC15(sc *c15Scenario) (obs *c15Obs) {
 	return obs
 }
 
-func testPayload(i int) []byte {
-	return []byte(fmt.Sprintf(`{"targetArtifact":{"mediaType":"application/vnd.oci.image.manifest.v1+json","digest":"sha256:%064d","size":%d}}`, i, 100+i))
+func testPayload(i int) []byte { return testPayloadKind(i, 0) }
+
+// testPayloadKind adds top-level members that mean something to JWT libraries
+// (registered claim names) but nothing to Notary: legal JSON, unusual payloads.
+func testPayloadKind(i, kind int) []byte {
+	extra := []string{"", `,"exp":946684700`, `,"nbf":4102444800`, `,"iat":4102444800`, `,"exp":"soon","aud":["x"]`, `,"annotations":{"io.sim":"v"},"exp":1}`}[kind%6]
+	if kind%6 == 5 {
+		return []byte(fmt.Sprintf(`{"targetArtifact":{"mediaType":"application/vnd.oci.image.manifest.v1+json","digest":"sha256:%064d","size":%d,"annotations":{"io.sim":"v"}},"exp":1}`, i, 100+i))
+	}
+	return []byte(fmt.Sprintf(`{"targetArtifact":{"mediaType":"application/vnd.oci.image.manifest.v1+json","digest":"sha256:%064d","size":%d}%s}`, i, 100+i, extra))
 }
 
 const payloadContentType = "application/vnd.cncf.notary.payload.v1+json"
